@@ -33,6 +33,7 @@ func c04(c *Ctx) {
 	coreCommitBundle(c, "R11", "S-MATCH")
 	c06R4(c, "R11/C06.R4")
 	sHeartbeatFastPath(c, "R12/S-FASTPATH")
+	sStoreWriters(c, "R13/S-WRITERS")
 }
 
 // prevCheckTracks: tracks of the previous-entry check in appendEntries.
